@@ -208,6 +208,22 @@ impl Job {
         let ret_defect = self.ret_defect();
         let mut j = Judged { failures: vec![], op: "skip".into(), imp: "skip".into(), nontrivial: false, pairs: 0, judged_a: 0, notes: vec![] };
 
+        // what the sub-queries delivered vs. the specification's filter (C02's subject)
+        let spec_a: BTreeSet<i64> = ra.iter().zip(eva.iter()).filter(|(row, _)| super::side(wh, ta, row)).map(|(_, e)| e.id).collect();
+        let spec_b: BTreeSet<i64> = rb.iter().zip(evb.iter()).filter(|(row, _)| super::side(wh, tb, row)).map(|(_, e)| e.id).collect();
+        let (del_a, del_b) = match (del_a, del_b) {
+            (Some(x), Some(y)) => (x, y),
+            _ => {
+                j.failures.push(("-".into(), format!("plain per-type query failed | {q}")));
+                return j;
+            }
+        };
+        let stable = pre_a.as_ref() == Some(&del_a) && pre_b.as_ref() == Some(&del_b);
+        let subquery_differs = del_a != spec_a || del_b != spec_b || !stable;
+        if subquery_differs {
+            j.notes.push("subquery-filter-differs-from-spec");
+        }
+
         let parsed = match &rep {
             Some(rp) if rp.ok() => pairs_of(rp, preceded, ta, tb, &ia, &ib),
             Some(rp) => Err(format!("status {} {}", rp.status_class(), rp.message)),
@@ -220,7 +236,13 @@ impl Job {
         let pairs = match parsed {
             Ok(p) => p,
             Err(e) => {
-                let class = if ret_defect { "return-omits-link-or-time" } else { "-" };
+                let class = if ret_defect {
+                    "return-omits-link-or-time"
+                } else if subquery_differs {
+                    "subquery-filter-differs"
+                } else {
+                    "-"
+                };
                 j.failures.push((class.into(), format!("{e} | {q}")));
                 return j;
             }
@@ -245,22 +267,6 @@ impl Job {
         let parsed_unl = if has_dups { None } else { parsed_unl };
         if has_dups {
             j.failures.push(("duplicate-pair".into(), format!("the same pair is returned more than once: {raw_pairs:?} | {q}")));
-        }
-
-        // what the sub-queries delivered vs. the specification's filter (C02's subject)
-        let spec_a: BTreeSet<i64> = ra.iter().zip(eva.iter()).filter(|(row, _)| super::side(wh, ta, row)).map(|(_, e)| e.id).collect();
-        let spec_b: BTreeSet<i64> = rb.iter().zip(evb.iter()).filter(|(row, _)| super::side(wh, tb, row)).map(|(_, e)| e.id).collect();
-        let (del_a, del_b) = match (del_a, del_b) {
-            (Some(x), Some(y)) => (x, y),
-            _ => {
-                j.failures.push(("-".into(), format!("plain per-type query failed | {q}")));
-                return j;
-            }
-        };
-        let stable = pre_a.as_ref() == Some(&del_a) && pre_b.as_ref() == Some(&del_b);
-        let subquery_differs = del_a != spec_a || del_b != spec_b || !stable;
-        if subquery_differs {
-            j.notes.push("subquery-filter-differs-from-spec");
         }
 
         // model comparison where the answer is determined: the matcher on the delivered rows
@@ -369,12 +375,6 @@ pub fn run(a: &Args) {
         if a.only.is_some_and(|o| o != i) {
             continue;
         }
-        // debugging aid: `--from N` skips the cases before N (keeps the per-case seeds)
-        if let Some(p) = a.extra.iter().position(|x| x == "--from") {
-            if i < a.extra[p + 1].parse::<u64>().unwrap() {
-                continue;
-            }
-        }
         if cur_block == u64::MAX {
             cur_block = i / BLOCK;
         } else if i / BLOCK != cur_block {
@@ -422,6 +422,12 @@ pub fn run(a: &Args) {
         // racing: the query is sent while automatic flushes may still be in flight
         let racing = r.chance(1, 8);
         let job = Job { ta: ta.clone(), tb: tb.clone(), preceded, wh, limit, ret, evs };
+        // debugging aid: `--from N` does not drive the cases before N (ids and seeds stay the same)
+        if let Some(p) = a.extra.iter().position(|x| x == "--from") {
+            if i < a.extra[p + 1].parse::<u64>().unwrap() {
+                continue;
+            }
+        }
 
         // ---- drive the engine
         let ktype = if nullable { "int | null" } else { "int" };
